@@ -354,7 +354,7 @@ struct Made
 static Made makeSampler(World &w, const std::string &kind, unsigned N, unsigned batch = 7)
 {
     Made m;
-    if (kind == "direct")
+    if (kind == "direct" || kind == "direct-raised")
     {
         m.inf = w.opt->allocInformedStateSampler(w.pd, N);
         if (!dynamic_cast<ob::PathLengthDirectInfSampler *>(m.inf.get()))
@@ -381,6 +381,13 @@ static Made makeSampler(World &w, const std::string &kind, unsigned N, unsigned 
         framework("unknown sampler kind " + kind);
     if (!m.costSource)
         m.costSource = m.inf;
+    if (kind == "direct-raised")
+    {
+        // history: one earlier call on the same sampler with a bound just above the smallest focal distance
+        ob::State *st = w.sp->allocState();
+        m.inf->sampleUniform(st, ob::Cost((double)(w.minFocal() * (1 + 1e-3L))));
+        w.sp->freeState(st);
+    }
     return m;
 }
 
@@ -446,7 +453,9 @@ static void setBounds(World &w, const std::string &kind, double c)
                 mx[i] = std::max(mx[i], p.p[i]);
             }
     LD d = w.minFocal();
-    double b = std::isfinite(c) ? (double)(sqrtl(((LD)c - d) * ((LD)c + d)) / 2) : 1.0;
+    double b = std::isfinite(c) && (LD)c > d ? (double)(sqrtl(((LD)c - d) * ((LD)c + d)) / 2) : 1.0;
+    if (!(b > 1e-3 * (double)d))
+        b = std::max(b, 1e-3 * (double)d);   // bounds never closer to the foci than a thousandth of their distance
     w.lo.assign(n, 0.0);
     w.hi.assign(n, 0.0);
     for (int i = 0; i < n; ++i)
@@ -467,6 +476,11 @@ static void setBounds(World &w, const std::string &kind, double c)
             w.lo[i] = mn[i] - 0.1 * b;
             w.hi[i] = mx[i] + 0.3 * b;
         }
+        else if (kind == "strip")   // smaller than a PHS but sticking out of the informed set along the first axis
+        {
+            w.lo[i] = i == 0 ? mn[i] - 3 * b : ctr[i] - 0.15 * b;
+            w.hi[i] = i == 0 ? mx[i] + 3 * b : ctr[i] + 0.10 * b;
+        }
         else   // "fixed": a box around the foci that does not know the cost
         {
             double m = std::max((double)d, 1e-9);
@@ -480,14 +494,20 @@ static void setBounds(World &w, const std::string &kind, double c)
 struct SampleBatch
 {
     json ret = json::array(), inb = json::array(), lt = json::array(), ge = json::array(), xlt = json::array(),
-         xge = json::array(), agree = json::array();
+         xge = json::array(), agree = json::array(), att = json::array(), nmax = json::array();
     json firstBad;
     long n{0}, succ{0}, fails{0};
 };
 // one observed call: what the contract is told about it
 static void observe(SampleBatch &b, const World &w, bool ret, const ob::State *st, double reported, bool directCost,
-                    double minC, double maxC, bool hasMin, int forcedInb = -1, const json &ctx = json())
+                    double minC, double maxC, bool hasMin, int forcedInb = -1, const json &ctx = json(), long attempts = -1,
+                    long nMax = 0)
 {
+    if (attempts >= 0)
+    {
+        b.att.push_back(attempts);
+        b.nmax.push_back(nMax);
+    }
     Pose p = w.read(st);
     bool inb = forcedInb >= 0 ? forcedInb == 1 : w.inBounds(p);
     LD own = directCost ? w.costFocal(p) : w.costGeneric(p);
@@ -519,18 +539,30 @@ static void emitBatch(vt::Trace &t, SampleBatch &b, json head)
     head["e"] = "Sample";
     if (!head.contains("degen"))
         head["degen"] = 0;
-    head["ret"] = b.ret;
-    head["inb"] = b.inb;
-    head["lt"] = b.lt;
-    head["ge"] = b.ge;
-    head["xlt"] = b.xlt;
-    head["xge"] = b.xge;
-    head["agree"] = b.agree;
     head["succ"] = b.succ;
     head["fails"] = b.fails;
     if (!b.firstBad.is_null())
         head["bad"] = b.firstBad;
-    t.emit(head);
+    // large batches are written in chunks so that no line grows beyond what TLC parses comfortably
+    const size_t CH = 50000, n = b.ret.size();
+    bool counted = b.att.size() == n;
+    for (size_t from = 0; from < std::max(n, (size_t)1); from += CH)
+    {
+        size_t to = std::min(n, from + CH);
+        auto cut = [&](const json &a) { return json(std::vector<json>(a.begin() + from, a.begin() + to)); };
+        json ev = head;
+        ev["chunk"] = from / CH;
+        ev["ret"] = cut(b.ret);
+        ev["inb"] = cut(b.inb);
+        ev["lt"] = cut(b.lt);
+        ev["ge"] = cut(b.ge);
+        ev["xlt"] = cut(b.xlt);
+        ev["xge"] = cut(b.xge);
+        ev["agree"] = cut(b.agree);
+        ev["att"] = counted ? cut(b.att) : (from == 0 ? b.att : json::array());
+        ev["nmax"] = counted ? cut(b.nmax) : (from == 0 ? b.nmax : json::array());
+        t.emit(ev);
+    }
 }
 
 // regime class used in violation keys: "coarse" = the spacing of doubles at the foci is within 1e6 of the
@@ -553,12 +585,13 @@ struct SampleCfg
     unsigned N;
     int calls;
     bool shrink;          // ordered: the bound shrinks from call to call
+    bool exact{false};    // the bound is EXACTLY the focal distance the library computes (measure-zero informed set)
 };
 static json cfgJson(const SampleCfg &c)
 {
     return json{{"space", c.space}, {"kind", c.kind},     {"bounds", c.bounds}, {"ov", c.ov},   {"n", c.n},
                 {"dir", c.dir},     {"starts", c.starts}, {"goals", c.goals},   {"d", hexd(c.d)}, {"off", hexd(c.off)},
-                {"rel", hexd(c.rel)}, {"N", c.N},         {"calls", c.calls},   {"shrink", c.shrink}};
+                {"rel", hexd(c.rel)}, {"N", c.N},         {"calls", c.calls},   {"shrink", c.shrink}, {"degen", c.exact ? 1 : 0}};
 }
 static void buildWorld(World &w, const SampleCfg &c, vt::Rng &r, double &maxC, double &minC)
 {
@@ -609,6 +642,11 @@ static void buildWorld(World &w, const SampleCfg &c, vt::Rng &r, double &maxC, d
     maxC = std::isinf(c.rel) ? INF : (double)(base * (1 + (LD)c.rel));
     if (std::isfinite(maxC) && !((LD)maxC > dmin))
         maxC = std::nextafter((double)dmin, INF) * (1 + 1e-9);
+    if (c.exact)
+    {
+        ompl::ProlateHyperspheroid phs(c.n, &w.starts[0].p[0], &w.goals[0].p[0]);
+        maxC = phs.getMinTransverseDiameter();
+    }
     minC = std::isfinite(maxC) ? (double)(dmin + 0.6L * ((LD)maxC - dmin)) : (double)(2 * dmin);
     setBounds(w, std::isfinite(maxC) ? c.bounds : "fixed", std::isfinite(maxC) ? maxC : 0);
     w.build();
@@ -931,11 +969,37 @@ static void jobHist(vt::Trace &t, const HistCfg &c, unsigned long long seed)
     std::vector<long long> elo, ehi;
     std::vector<char> overlapBin;
     // --- bins and their exact probabilities
-    Vec a1(n), ctr(n);
+    Vec a1(n), ctr(n), gl = w.lo, gh = w.hi;   // gl, gh: the box the grid covers
     std::vector<Vec> H;   // orthonormal frame whose first vector is the focal axis (Householder reflection)
     LD aa = 0, bb = 0;
     if (c.binning == "grid")
     {
+        // the grid covers the bounds clipped to the bounding box of the PHSs (own formula, slightly enlarged)
+        {
+            Vec bl(n, INF), bh(n, -INF);
+            for (auto &s : w.starts)
+                for (auto &g : w.goals)
+                {
+                    LD d = dist(s.p, g.p);
+                    if (!((LD)maxC > d))
+                        continue;
+                    LD A = (LD)maxC / 2, Bq = ((LD)maxC - d) * ((LD)maxC + d) / 4;
+                    for (int i = 0; i < n; ++i)
+                    {
+                        LD ax = ((LD)g.p[i] - (LD)s.p[i]) / d, cc = 0.5L * ((LD)g.p[i] + (LD)s.p[i]);
+                        LD ext = sqrtl(A * A * ax * ax + Bq * (1 - ax * ax)) * (1 + 1e-6L);
+                        bl[i] = std::min(bl[i], (double)(cc - ext));
+                        bh[i] = std::max(bh[i], (double)(cc + ext));
+                    }
+                }
+            for (int i = 0; i < n; ++i)
+            {
+                gl[i] = std::max(w.lo[i], bl[i]);
+                gh[i] = std::min(w.hi[i], bh[i]);
+                if (!(gh[i] > gl[i]))
+                    framework("empty grid box in " + c.name);
+            }
+        }
         nb = 1;
         for (int i = 0; i < n; ++i)
             nb *= c.G;
@@ -951,7 +1015,7 @@ static void jobHist(vt::Trace &t, const HistCfg &c, unsigned long long seed)
         LD diag = 0;
         for (int i = 0; i < n; ++i)
         {
-            h[i] = (w.hi[i] - w.lo[i]) / (c.G * c.sub);
+            h[i] = (gh[i] - gl[i]) / (c.G * c.sub);
             diag += (LD)h[i] * h[i];
         }
         diag = sqrtl(diag);   // = 2 * half diagonal
@@ -974,7 +1038,7 @@ static void jobHist(vt::Trace &t, const HistCfg &c, unsigned long long seed)
                 {
                     int k = rc % c.sub;
                     rc /= c.sub;
-                    x[i] = w.lo[i] + (bi[i] * c.sub + k + 0.5) * h[i];
+                    x[i] = gl[i] + (bi[i] * c.sub + k + 0.5) * h[i];
                 }
                 int inside = 0, maybe = 0;
                 for (auto &s : w.starts)
@@ -1042,6 +1106,16 @@ static void jobHist(vt::Trace &t, const HistCfg &c, unsigned long long seed)
         elo.assign(nb, (long long)floorl((LD)c.samples / nb) - 1);
         ehi.assign(nb, (long long)ceill((LD)c.samples / nb) + 1);
     }
+    // which branch of the direct sampler this is (own volumes against the box)
+    {
+        LD box = 1, sum = 0;
+        for (int i = 0; i < n; ++i)
+            box *= (LD)w.hi[i] - (LD)w.lo[i];
+        for (auto &s : w.starts)
+            for (auto &g : w.goals)
+                sum += phsVolume(n, dist(s.p, g.p), (LD)maxC);
+        head["branch"] = box < sum / (LD)(w.starts.size() * w.goals.size()) ? "whole-space" : "phs";
+    }
     // --- the long run
     long out = 0, overlapSamples = 0, fails = 0, calls = 0;
     json firstOut;
@@ -1070,12 +1144,15 @@ static void jobHist(vt::Trace &t, const HistCfg &c, unsigned long long seed)
                 continue;
             }
             long bin = 0;
+            bool offGrid = false;
             if (c.binning == "grid")
             {
                 long mul = 1;
                 for (int i = 0; i < n; ++i)
                 {
-                    int k = (int)std::floor((p.p[i] - w.lo[i]) / (w.hi[i] - w.lo[i]) * c.G);
+                    int k = (int)std::floor((p.p[i] - gl[i]) / (gh[i] - gl[i]) * c.G);
+                    if (k < 0 || k >= c.G)
+                        offGrid = true;
                     k = std::max(0, std::min(c.G - 1, k));
                     bin += mul * k;
                     mul *= c.G;
@@ -1087,6 +1164,12 @@ static void jobHist(vt::Trace &t, const HistCfg &c, unsigned long long seed)
                             ++k;
                 if (k > 1)
                     ++overlapSamples;
+                if (offGrid)   // inside the region by the focal sums but outside its bounding box: cannot happen
+                {
+                    if (out++ == 0)
+                        firstOut = json{{"state", hexv(p.p)}, {"own_cost", hexd((double)own)}, {"call", calls}, {"off_grid", true}};
+                    continue;
+                }
             }
             else
             {
@@ -1218,7 +1301,23 @@ static std::vector<Job> makeJobs(const std::string &tier, unsigned long long see
     for (int n : {2, 3})
         for (const char *kind : {"direct", "rejection"})
             sel.push_back(SampleCfg{"Rn", kind, "inside", "max", n, 0, 1, 1, 2e-9, 1.0 * std::sqrt((double)n), 1e-9, 100u,
-                                    thorough ? 20000 : 4000, false});
+                                    50000, false});
+    // the measure-zero informed set planners end up with (bound == focal distance, exactly): every call must
+    // return; nothing is demanded about success
+    for (const char *space : {"Rn", "SE2", "SE3"})
+        for (const char *kind : {"direct", "directctor", "rejection", "ordered"})
+            for (const char *bk : {"inside", "slab"})
+                for (unsigned N : {1u, 17u, 100u})
+                {
+                    int n = std::string(space) == "SE3" ? 3 : std::string(space) == "SE2" ? 2 : 2 + (int)(N % 3) * 2;
+                    SampleCfg c{space, kind, bk, "max", n, 2, 1, 1, ds[pick.below(4)], 0.0, 1e-3, N, thorough ? 300 : 60, false};
+                    c.exact = true;
+                    sel.push_back(c);
+                }
+    // history with a bound that is raised again on the same sampler object
+    const bool raised = getenv("VERIF_C15_RAISED") != nullptr;   // pending the coordinator's decision on D-C15-2
+    if (raised)
+        sel.push_back(SampleCfg{"Rn", "direct-raised", "inside", "max", 2, 2, 2, 2, 1.0, 0.0, 0.35, 100u, 2000, false});
     for (size_t i = 0; i < sel.size(); ++i)
     {
         SampleCfg c = sel[i];
@@ -1259,9 +1358,11 @@ static std::vector<Job> makeJobs(const std::string &tier, unsigned long long see
     std::vector<HistCfg> hs;
     // several overlapping PHSs (2 starts x 2 goals) in R^2: both branches of the direct sampler, and rejection
     hs.push_back({"multi-phsbranch", "Rn", "direct", "grid", 2, 2, 2, 2, 1.0, 0.35, "slab", S, 100u, 16, thorough ? 256 : 128});
-    hs.push_back({"multi-wholespace", "Rn", "direct", "grid", 2, 2, 2, 2, 1.0, 0.35, "cut", S, 100u, 16, thorough ? 256 : 128});
-    hs.push_back({"multi-rejection", "Rn", "rejection", "grid", 2, 2, 2, 2, 1.0, 0.35, "cut", S, 100u, 16, thorough ? 256 : 128});
+    hs.push_back({"multi-wholespace", "Rn", "direct", "grid", 2, 2, 2, 2, 1.0, 0.35, "strip", S, 100u, 16, thorough ? 256 : 128});
+    hs.push_back({"multi-rejection", "Rn", "rejection", "grid", 2, 2, 2, 2, 1.0, 0.35, "strip", S, 100u, 16, thorough ? 256 : 128});
     hs.push_back({"multi-ordered", "Rn", "ordered", "grid", 2, 2, 2, 2, 1.0, 0.35, "slab", S, 100u, 16, thorough ? 256 : 128});
+    if (raised)
+        hs.push_back({"multi-bound-raised", "Rn", "direct-raised", "grid", 2, 2, 2, 2, 1.0, 0.35, "slab", S, 100u, 16, thorough ? 256 : 128});
     hs.push_back({"multi-3x2", "Rn", "direct", "grid", 2, 3, 2, 2, 1.0, 0.25, "slab", S, 100u, 16, thorough ? 256 : 128});
     hs.push_back({"single-cut-2d", "Rn", "direct", "grid", 2, 1, 1, 2, 1.0, 0.3, "slab", S, 100u, 16, thorough ? 256 : 128});
     hs.push_back({"single-cut-3d", "Rn", "direct", "grid", 3, 1, 1, 2, 1.0, 0.3, "slab", S, 100u, 6, thorough ? 24 : 16});
@@ -1291,8 +1392,14 @@ static std::vector<Job> makeJobs(const std::string &tier, unsigned long long see
     return jobs;
 }
 
-static void runJobInChild(const Job &j, size_t k, unsigned long long seed, const std::string &part)
+#include <sys/resource.h>
+static void runJobInChild(const Job &j, size_t k, unsigned long long seed, const std::string &part, int cpuLimit = 0)
 {
+    if (cpuLimit > 0)
+    {
+        struct rlimit rl{(rlim_t)cpuLimit, (rlim_t)cpuLimit + 5};
+        setrlimit(RLIMIT_CPU, &rl);   // a call that never returns becomes a Hang event
+    }
     unsigned long long s = mix(seed, k + 1);
     ompl::RNG::setSeed((std::uint_fast32_t)(s % 2000000000ULL + 1));
     ompl::msg::setLogLevel(ompl::msg::LOG_NONE);
@@ -1320,7 +1427,7 @@ static int modeRecord(const std::string &out, const std::string &tier, int par)
                 framework("fork failed");
             if (p == 0)
             {
-                runJobInChild(jobs[next], next, seed, part(next));
+                runJobInChild(jobs[next], next, seed, part(next), tier == "thorough" ? 1500 : 400);
                 fflush(nullptr);
                 _exit(0);
             }
@@ -1361,10 +1468,11 @@ static int modeRecord(const std::string &out, const std::string &tier, int par)
             framework("job " + std::to_string(k) + " (" + jobs[k].name + ") reported a framework error");
         if (bad && !sawCrash)
         {
-            json e{{"e", "Crash"}, {"job", k}, {"what", "child ended with status " + std::to_string(status[k])}, {"name", jobs[k].name}};
+            bool hang = WIFSIGNALED(status[k]) && (WTERMSIG(status[k]) == SIGXCPU || WTERMSIG(status[k]) == SIGKILL);
+            json e{{"e", hang ? "Hang" : "Crash"}, {"job", k}, {"what", "child ended with status " + std::to_string(status[k])}, {"name", jobs[k].name}};
             fputs(e.dump().c_str(), f);
             fputc('\n', f);
-            events["Crash"]++;
+            events[e["e"].get<std::string>()]++;
         }
         if (bad)
             ++crashed;
